@@ -75,7 +75,7 @@ func (n *Node) Close() {
 func (n *Node) Apply(b *BlockRec) (hash []byte, results []TxResult, updates string, pi *PanicInfo) {
 	pi = catch(func() {
 		n.Height = b.Height
-		n.App.BeginBlock(abci.RequestBeginBlock{Header: tmproto.Header{ChainID: ChainID, Height: b.Height, Time: b.Time}, LastCommitInfo: b.Commit, ByzantineValidators: b.Evidence})
+		n.App.BeginBlock(abci.RequestBeginBlock{Header: tmproto.Header{ChainID: ChainID, Height: b.Height, Time: b.Time, LastBlockId: LastBlockID(b.Height)}, LastCommitInfo: b.Commit, ByzantineValidators: b.Evidence})
 		for _, tx := range b.Txs {
 			r := n.App.DeliverTx(abci.RequestDeliverTx{Tx: tx})
 			results = append(results, TxResult{Code: r.Code, Codespace: r.Codespace, Log: r.Log, GasWanted: r.GasWanted, GasUsed: r.GasUsed, Data: r.Data, Events: r.Events})
